@@ -247,4 +247,50 @@ theorem Synced.queue {w : WState S} (h : Synced w) (hd : w.dead = false) : w.cha
   · exact hg.queue
   · rw [hd] at hd'; cases hd'
 
+/-! ## the verdict returned is the verdict given -/
+
+/-- `solve` returns `b` only when the solver's own reply to *this* `(check-sat)` was `sat` (for `true`) resp.
+    `unsat` (for `false`); that exchange is the last block of the history. -/
+theorem solve_faithful (w : WState S) (hw : Good w) (w' : WState S) (b : Bool) (h : solve w = (w', .ok b)) :
+    ∃ t s, Paired S S.init t s ∧
+      (S.respond s .checkSat).2 = .verdict (if b then .sat else .unsat) ∧
+      w'.chan.trace = t ++ [.send .checkSat, .recv (.verdict (if b then .sat else .unsat))] := by
+  have hstep : solve w = (clearPendingPop >>= fun _ => send .checkSat >>= fun _ => recv >>= fun ans => match ans with
+    | .verdict .sat => pure true
+    | .verdict .unsat => pure false
+    | .verdict .unknown => M.throw .unknownResult
+    | _ => M.throw .solverError) w := rfl
+  rw [hstep, M.run_bind] at h
+  have hg := pres_clearPendingPop w hw
+  match h1 : clearPendingPop w with
+  | (w1, .error e) => rw [h1] at h; simp at h
+  | (w1, .ok ()) =>
+    rw [h1] at h hg
+    have hq : w1.chan.queue = [] := hg.queue
+    have hp : Paired S S.init w1.chan.trace w1.chan.solver := hg.paired
+    simp only [M.run_bind, send, M.run_modify, recv, hq, List.nil_append] at h
+    refine ⟨w1.chan.trace, w1.chan.solver, hp, ?_⟩
+    generalize (S.respond w1.chan.solver Cmd.checkSat).2 = r at h ⊢
+    match r, h with
+    | .verdict .sat, h =>
+      cases h
+      exact ⟨rfl, by simp⟩
+    | .verdict .unsat, h =>
+      cases h
+      exact ⟨rfl, by simp⟩
+    | .verdict .unknown, h => simp at h
+    | .success, h => simp at h
+    | .value _, h => simp at h
+    | .error _, h => simp at h
+
+/-- `is_valid` and `is_unsat` are the negation of `is_sat` on the formula they are given (for `is_valid`: the negated one) -/
+theorem shortcuts_negate (w : WState S) (e : Expr) :
+    (call (.isValid e) w).1 = (call (.isSat e) w).1 ∧ (call (.isUnsat e) w).1 = (call (.isSat e) w).1 ∧
+    (∀ b, (call (.isSat e) w).2 = .bool b → (call (.isValid e) w).2 = .bool (!b) ∧ (call (.isUnsat e) w).2 = .bool (!b)) := by
+  simp only [call, outOf_fst, true_and]
+  intro b
+  match isSat e w with
+  | (w', .ok b') => simp only [outOf, Out.bool.injEq]; rintro rfl; exact ⟨rfl, rfl⟩
+  | (w', .error e') => simp [outOf]
+
 end PySMT.SmtSolver
